@@ -14,6 +14,7 @@ from .world import ListOf
 
 def real_function(world, key):
     relpath, qual = key.split("::")
+    qual = qual.split("#")[0]
     mod = importlib.import_module(relpath[:-3].replace("/", "."))
     obj = mod
     for part in qual.split("."):
